@@ -108,12 +108,45 @@ static int do_batch(int argc, char **argv) {
     std::map<std::string, uint64_t> discard_kinds;
     std::vector<std::string> samples;
     int64_t done_upto = first - stride;
+    auto emit = [&](const char *tag, bool final) {
+        if (final && hashfile && *hashfile && strcmp(hashfile, "-")) {
+            std::vector<uint64_t> v(distinct.begin(), distinct.end());
+            std::sort(v.begin(), v.end());
+            FILE *hf = fopen(hashfile, "wb");
+            if (hf) { fwrite(v.data(), 8, v.size(), hf); fclose(hf); }
+        }
+        std::ostringstream o;
+        o << "{\"runs\":" << runs << ",\"executions\":" << execs << ",\"violations\":" << violations << ",\"discards\":" << discards << ",\"evaluations\":" << evals
+          << ",\"events\":" << events << ",\"steps\":" << stats.steps << ",\"noops\":" << stats.noops << ",\"judged_steps\":" << stats.judged_steps << ",\"adopted_steps\":" << stats.adopted_steps
+          << ",\"nontrivial\":" << stats.nontrivial << ",\"distinct_local\":" << distinct.size() << ",\"last_run\":" << done_upto << ",\"wall\":" << elapsed();
+        auto dumpmap = [&](const char *name, const std::map<std::string, uint64_t> &m) {
+            o << ",\"" << name << "\":{";
+            bool f = true;
+            for (auto &kv : m) { if (!f) o << ","; f = false; o << "\"" << jesc(kv.first) << "\":" << kv.second; }
+            o << "}";
+        };
+        dumpmap("ops", stats.op_counts);
+        std::map<std::string, uint64_t> faults = stats.fault_counts, probes = stats.probes;
+        faults["alloc_fail_fired"] += asim::counters().fail_fired;
+        faults["alloc_fail_on_realloc"] += asim::counters().fail_on_realloc;
+        dumpmap("faults", faults);
+        for (int s = 0; s < 64; s++) if (asim::probe_hits[s]) probes["site_" + std::to_string(s)] += asim::probe_hits[s];
+        dumpmap("probes", probes);
+        dumpmap("discard_kinds", discard_kinds);
+        o << ",\"alloc\":{\"malloc_libc\":" << asim::counters().mallocs[0] << ",\"malloc_custom\":" << asim::counters().mallocs[1] << ",\"free_libc\":" << asim::counters().frees[0]
+          << ",\"free_custom\":" << asim::counters().frees[1] << ",\"realloc\":" << asim::counters().reallocs << ",\"free_null\":" << (asim::counters().free_null[0] + asim::counters().free_null[1]) << "}";
+        o << ",\"samples\":[";
+        for (size_t k = 0; k < samples.size(); k++) { if (k) o << ","; o << "\"" << jesc(samples[k]) << "\""; }
+        o << "]}";
+        printf("%s %s\n", tag, o.str().c_str());
+        fflush(stdout);
+    };
+    double last_ckpt = 0;
     for (int64_t n = 0; n < count; n++) {
         int64_t i = first + n * stride;
         if (elapsed() > budget) break;
         pg->run = i; pg->sub = -1; pg->step = -1; pg->judged = 0; pg->phase = 1;
-        printf("START %lld\n", (long long)i);
-        fflush(stdout);
+        if ((n & 1023) == 0) { printf("START %lld\n", (long long)i); fflush(stdout); }
         Plan p = gen_any(prop, seed, i);
         bool sample = samples.size() < 2;
         int64_t subcount = 0;
@@ -152,40 +185,10 @@ static int do_batch(int argc, char **argv) {
         }
         runs++;
         done_upto = i;
+        if (elapsed() - last_ckpt > 0.25) { last_ckpt = elapsed(); emit("CHECKPOINT", false); }
     }
     pg->phase = 0;
-    // distinct hashes: sorted file for the cross-worker union
-    if (hashfile && *hashfile && strcmp(hashfile, "-")) {
-        std::vector<uint64_t> v(distinct.begin(), distinct.end());
-        std::sort(v.begin(), v.end());
-        FILE *hf = fopen(hashfile, "wb");
-        if (hf) { fwrite(v.data(), 8, v.size(), hf); fclose(hf); }
-    }
-    std::ostringstream o;
-    o << "{\"runs\":" << runs << ",\"executions\":" << execs << ",\"violations\":" << violations << ",\"discards\":" << discards << ",\"evaluations\":" << evals
-      << ",\"events\":" << events << ",\"steps\":" << stats.steps << ",\"noops\":" << stats.noops << ",\"judged_steps\":" << stats.judged_steps << ",\"adopted_steps\":" << stats.adopted_steps
-      << ",\"nontrivial\":" << stats.nontrivial << ",\"distinct\":" << distinct.size() << ",\"last_run\":" << done_upto << ",\"wall\":" << elapsed();
-    auto dumpmap = [&](const char *name, const std::map<std::string, uint64_t> &m) {
-        o << ",\"" << name << "\":{";
-        bool f = true;
-        for (auto &kv : m) { if (!f) o << ","; f = false; o << "\"" << jesc(kv.first) << "\":" << kv.second; }
-        o << "}";
-    };
-    dumpmap("ops", stats.op_counts);
-    // allocator-level fault counters
-    stats.fault_counts["alloc_fail_fired"] += asim::counters().fail_fired;
-    stats.fault_counts["alloc_fail_on_realloc"] += asim::counters().fail_on_realloc;
-    dumpmap("faults", stats.fault_counts);
-    for (int s = 0; s < 64; s++) if (asim::probe_hits[s]) stats.probes["site_" + std::to_string(s)] += asim::probe_hits[s];
-    dumpmap("probes", stats.probes);
-    dumpmap("discard_kinds", discard_kinds);
-    o << ",\"alloc\":{\"malloc_libc\":" << asim::counters().mallocs[0] << ",\"malloc_custom\":" << asim::counters().mallocs[1] << ",\"free_libc\":" << asim::counters().frees[0]
-      << ",\"free_custom\":" << asim::counters().frees[1] << ",\"realloc\":" << asim::counters().reallocs << ",\"free_null\":" << (asim::counters().free_null[0] + asim::counters().free_null[1]) << "}";
-    o << ",\"samples\":[";
-    for (size_t k = 0; k < samples.size(); k++) { if (k) o << ","; o << "\"" << jesc(samples[k]) << "\""; }
-    o << "]}";
-    printf("SUMMARY %s\n", o.str().c_str());
-    fflush(stdout);
+    emit("SUMMARY", true);
     return 0;
 }
 
